@@ -4,9 +4,10 @@
    Completeness on the strict language: a line the reference calls Valid
    reaches the backend with exactly the reference's mailbox and options.
    Soundness of refusal: a line the reference calls Invalid is refused with a
-   5xx reply and no callback - except for the two accepted deviations
-   [fold_trap] / [flag_with_value], for which the converse is proved
-   (refutation witnesses). *)
+   5xx reply and no callback, for every line (the two former deviations,
+   keywords folded with Unicode rules and valued SMTPUTF8 / REQUIRETLS, are
+   repaired: parseArgs upper-cases ASCII-only and refuses "KEY=", the two
+   flag parameters refuse a value). *)
 From Smtp Require Import Bytes GoStrings Utf8 Xtext Parse Reply Rfc3339 Conn Utf8Proofs XtextProofs RefGrammar.
 From Coq Require Import Lia ZifyBool ZifyN ZifyNat Permutation.
 Local Open Scope char_scope.
@@ -45,7 +46,7 @@ Proof.
   destruct (Ascii.eqb c x); cbn; [split; discriminate|exact IH].
 Qed.
 
-(* ---- to_upper without the two non-ASCII code points ---- *)
+(* ---- to_upper (still used on parameter VALUES) without the two non-ASCII code points ---- *)
 
 Lemma to_upper_cons2 c d t :
   to_upper (c :: d :: t) =
@@ -83,28 +84,6 @@ Proof.
   intros H. cbn [forallb] in H. apply andb_true_iff in H as [Hc H].
   rewrite fold_trap_cons2, (IH H).
   rewrite (ascii7_not c 197), (ascii7_not c 196) by (lia || exact Hc). reflexivity.
-Qed.
-
-Lemma fold_trap_cons c s : fold_trap (c :: s) = false -> fold_trap s = false.
-Proof.
-  destruct s as [|d t]; [reflexivity|]. rewrite fold_trap_cons2. intros H.
-  apply orb_false_iff in H as [_ H]. exact H.
-Qed.
-
-Lemma fold_trap_app_r : forall a b, fold_trap (a ++ b) = false -> fold_trap b = false.
-Proof.
-  induction a as [|c a IH]; intros b0 H; [exact H|].
-  apply IH. apply (fold_trap_cons c). exact H.
-Qed.
-
-Lemma fold_trap_app_l : forall a b, fold_trap (a ++ b) = false -> fold_trap a = false.
-Proof.
-  induction a as [|c a IH]; intros b0 H; [reflexivity|].
-  destruct a as [|d t]; [reflexivity|].
-  change ((c :: d :: t) ++ b0) with (c :: d :: (t ++ b0)) in H.
-  rewrite fold_trap_cons2 in H |- *.
-  apply orb_false_iff in H as [H H3]. rewrite H. cbn [orb].
-  apply (IH b0). exact H3.
 Qed.
 
 (* ---- white space ---- *)
@@ -808,14 +787,15 @@ Qed.
 
 Definition tok_val (tok : bytes) : bytes :=
   match snd (r_tok_split tok) with Some v => v | None => [] end.
+(* parseArgs takes the token: a bare keyword, or one '=' and a non-empty value *)
 Definition tok_ok (tok : bytes) : bool :=
-  match snd (r_tok_split tok) with Some v => negb (mem_byte "=" v) | None => true end.
+  match snd (r_tok_split tok) with Some v => negb (r_bad_value v) | None => true end.
 Definition tok_k (tok : bytes) : bytes := fst (r_tok_split tok).
 
 Definition go_kv (tok : bytes) : option (bytes * bytes) :=
   match split_byte "=" tok with
-  | [k; v] => Some (to_upper k, v)
-  | [k] => Some (to_upper k, [])
+  | [k; v] => match v with [] => None | _ => Some (to_upper_ascii k, v) end
+  | [k] => Some (to_upper_ascii k, [])
   | _ => None
   end.
 
@@ -824,13 +804,15 @@ Lemma parse_args_go_cons a r m :
   match go_kv a with Some (k, v) => parse_args_go r (assoc_set k v m) | None => None end.
 Proof.
   cbn [parse_args_go]. unfold go_kv.
-  destruct (split_byte "=" a) as [|k [|v [|w l]]]; reflexivity.
+  destruct (split_byte "=" a) as [|k [|v [|w l]]]; try reflexivity.
+  destruct v; reflexivity.
 Qed.
 
 Lemma go_kv_ref tok :
-  go_kv tok = if tok_ok tok then Some (to_upper (tok_k tok), tok_val tok) else None.
+  go_kv tok = if tok_ok tok then Some (r_tok_key tok, tok_val tok) else None.
 Proof.
-  unfold go_kv, tok_ok, tok_val, tok_k, r_tok_split.
+  unfold go_kv, tok_ok, tok_val, tok_k, r_tok_key, r_bad_value, r_tok_split.
+  change to_upper_ascii with r_upper.
   destruct (r_span (fun x => Ascii.eqb x "=") tok) as [k r] eqn:Es.
   destruct (r_span_eq_char _ _ _ _ Es) as [E1 [E2 E3]]. cbn [fst snd].
   destruct r as [|c v].
@@ -841,7 +823,7 @@ Proof.
       cbn. apply orb_true_r. }
     destruct (E3 Hm) as [r' Er]. inversion Er; subst c r'.
     rewrite E1, (split_byte_at _ _ _ E2).
-    destruct (mem_byte "=" v) eqn:Ev; cbn [negb].
+    destruct (mem_byte "=" v) eqn:Ev; rewrite ?orb_true_r, ?orb_false_r; cbn [negb].
     + destruct v as [|x v']; [discriminate|].
       rewrite split_byte_cons. pose proof (split_byte_nonnil "=" v').
       destruct (split_byte "=" v') as [|h l] eqn:Esp; [contradiction|].
@@ -857,7 +839,7 @@ Proof.
         cbn [mem_byte] in E. destruct (Ascii.eqb "=" y); [discriminate|]. cbn in E.
         inversion Esp; subst. eapply IH; [exact E|reflexivity]. }
       congruence.
-    + now rewrite (split_byte_no _ _ Ev).
+    + rewrite (split_byte_no _ _ Ev). destruct v; reflexivity.
 Qed.
 
 Lemma assoc_set_fresh k v m :
@@ -873,22 +855,20 @@ Lemma existsb_app {A} (f : A -> bool) a b : existsb f (a ++ b) = existsb f a || 
 Proof. induction a as [|x a IH]; cbn; [reflexivity|]. now rewrite IH, orb_assoc. Qed.
 
 Lemma parse_args_go_tokens : forall toks m,
-  (forall tok, In tok toks -> to_upper (tok_k tok) = r_tok_key tok) ->
   forallb tok_ok toks = true ->
   r_nodup (map r_tok_key toks) = true ->
   (forall tok, In tok toks -> existsb (bytes_eqb (r_tok_key tok)) (map fst m) = false) ->
   parse_args_go toks m = Some (m ++ map tok_pair toks).
 Proof.
-  induction toks as [|a r IH]; intros m Hk Hok Hnd Hm.
+  induction toks as [|a r IH]; intros m Hok Hnd Hm.
   - cbn. now rewrite app_nil_r.
   - cbn [forallb] in Hok. apply andb_true_iff in Hok as [Ha Hok].
     cbn [map r_nodup] in Hnd. apply andb_true_iff in Hnd as [Hna Hnd].
     apply negb_true_iff in Hna.
-    rewrite parse_args_go_cons, go_kv_ref, Ha, (Hk a (or_introl eq_refl)).
+    rewrite parse_args_go_cons, go_kv_ref, Ha.
     rewrite assoc_set_fresh by (apply Hm; now left).
     rewrite IH; try assumption.
     + cbn [map]. now rewrite <- app_assoc.
-    + intros tok Ht. apply Hk. now right.
     + intros tok Ht. rewrite map_app, existsb_app, (Hm tok (or_intror Ht)). cbn.
       rewrite orb_false_r.
       destruct (bytes_eqb (r_tok_key tok) (r_tok_key a)) eqn:E; [|reflexivity].
@@ -1281,14 +1261,20 @@ Proof. reflexivity. Qed.
 
 Lemma mail_param_SMTPUTF8 cfg v o bm :
   mail_param cfg (bs "SMTPUTF8") v o bm =
-  if cf_utf8 cfg then inl (mkMO (mo_body o) (mo_size o) (mo_requiretls o) true (mo_ret o) (mo_envid o) (mo_auth o), bm)
-  else inr (504, (5, 5, 4), bs "SMTPUTF8 is not implemented")%Z.
+  if negb (cf_utf8 cfg) then inr (504, (5, 5, 4), bs "SMTPUTF8 is not implemented")%Z
+  else match v with
+       | [] => inl (mkMO (mo_body o) (mo_size o) (mo_requiretls o) true (mo_ret o) (mo_envid o) (mo_auth o), bm)
+       | _ => inr (501, (5, 5, 4), bs "SMTPUTF8 takes no value")%Z
+       end.
 Proof. reflexivity. Qed.
 
 Lemma mail_param_REQUIRETLS cfg v o bm :
   mail_param cfg (bs "REQUIRETLS") v o bm =
-  if cf_requiretls cfg then inl (mkMO (mo_body o) (mo_size o) true (mo_utf8 o) (mo_ret o) (mo_envid o) (mo_auth o), bm)
-  else inr (504, (5, 5, 4), bs "REQUIRETLS is not implemented")%Z.
+  if negb (cf_requiretls cfg) then inr (504, (5, 5, 4), bs "REQUIRETLS is not implemented")%Z
+  else match v with
+       | [] => inl (mkMO (mo_body o) (mo_size o) true (mo_utf8 o) (mo_ret o) (mo_envid o) (mo_auth o), bm)
+       | _ => inr (501, (5, 5, 4), bs "REQUIRETLS takes no value")%Z
+       end.
 Proof. reflexivity. Qed.
 
 Lemma mail_param_BODY cfg v o bm :
@@ -1352,14 +1338,6 @@ Proof. intros H1 H2 H3 H4 H5 H6 H7. unfold mail_param. now rewrite H1, H2, H3, H
 Lemma alnum_ascii c : (r_alnum c || Ascii.eqb c "-") = true -> is_ascii7 c = true.
 Proof. revert c. byteimpl. Qed.
 
-Lemma keyword_ascii k : r_keyword k = true -> forallb is_ascii7 k = true.
-Proof.
-  destruct k as [|c t]; [discriminate|]. unfold r_keyword. intros H.
-  apply andb_true_iff in H as [H1 H2]. cbn [forallb].
-  rewrite (alnum_ascii c) by (now rewrite H1).
-  eapply forallb_impl; [|exact H2]. apply alnum_ascii.
-Qed.
-
 Lemma r_is_eq s k : r_is s k = true -> r_upper s = bs k.
 Proof. unfold r_is. apply bytes_eqb_eq. Qed.
 
@@ -1382,22 +1360,19 @@ Qed.
 
 Lemma mail_param_valid cfg tok p :
   r_mail_param cfg tok = CV p ->
-  tok_ok tok = true /\ to_upper (tok_k tok) = r_tok_key tok /\ mp_key p = r_tok_key tok /\
+  tok_ok tok = true /\ mp_key p = r_tok_key tok /\
   forall o bm, mail_param cfg (r_tok_key tok) (tok_val tok) o bm = inl (mparam_apply o p, bm || mp_bin p).
 Proof.
   unfold r_mail_param, tok_ok, tok_k, r_tok_key, tok_val.
   destruct (r_tok_split tok) as [k v]. cbn [fst snd].
   destruct (r_keyword k) eqn:Ek; [|discriminate]. cbn [negb].
-  assert (Hup : to_upper k = r_upper k) by (apply ascii_upper, keyword_ascii, Ek).
   destruct v as [val|].
   - destruct (r_bad_value val) eqn:Eb; [discriminate|].
     destruct (r_esmtp_value val) eqn:Ev; [|discriminate]. cbn [negb].
-    destruct (bad_value_false _ Eb) as [Heq Hne].
     destruct (esmtp_value_xv _ Ev) as [Hxv _].
     assert (Hva : forallb is_ascii7 val = true) by (eapply forallb_impl; [apply xv_ascii|exact Hxv]).
-    rewrite Heq. cbn [negb].
     destruct (r_is k "SIZE") eqn:E1.
-    { apply r_is_eq in E1. rewrite E1 in Hup |- *. unfold r_size.
+    { apply r_is_eq in E1. rewrite E1. unfold r_size.
       destruct (r_nonempty val && forallb r_digit val) eqn:Ed; [|discriminate]. cbn [negb].
       apply andb_true_iff in Ed as [Hn Hd].
       destruct (20 <? List.length val)%nat; [discriminate|].
@@ -1407,7 +1382,7 @@ Proof.
       intros o bm. rewrite mail_param_SIZE, (parse_uint_ok _ Hn Hd Er), El.
       cbn [mparam_apply mp_bin]. now rewrite orb_false_r. }
     destruct (r_is k "BODY") eqn:E2.
-    { apply r_is_eq in E2. rewrite E2 in Hup |- *. unfold r_body.
+    { apply r_is_eq in E2. rewrite E2. unfold r_body.
       destruct (r_is val "7BIT" || r_is val "8BITMIME") eqn:E78.
       - intros H. inversion H; subst p. repeat split; try reflexivity; try assumption.
         intros o bm. rewrite mail_param_BODY. cbn zeta. rewrite (ascii_upper _ Hva).
@@ -1419,14 +1394,14 @@ Proof.
         intros o bm. rewrite mail_param_BODY. cbn zeta. rewrite (ascii_upper _ Hva).
         cbn [mparam_apply mp_bin]. apply r_is_eq in Eb2. rewrite Eb2, Ecb. cbn. now rewrite orb_true_r. }
     destruct (r_is k "RET") eqn:E3.
-    { apply r_is_eq in E3. rewrite E3 in Hup |- *. destruct (cf_dsn cfg) eqn:Edsn; [|discriminate]. unfold r_ret.
+    { apply r_is_eq in E3. rewrite E3. destruct (cf_dsn cfg) eqn:Edsn; [|discriminate]. unfold r_ret.
       destruct (r_is val "FULL" || r_is val "HDRS") eqn:Efh; [|discriminate].
       intros H. inversion H; subst p. repeat split; try reflexivity; try assumption.
       intros o bm. rewrite mail_param_RET, Edsn. cbn [negb]. cbn zeta. rewrite (ascii_upper _ Hva).
       cbn [mparam_apply mp_bin].
       apply orb_true_iff in Efh as [E|E]; apply r_is_eq in E; rewrite E; cbn; now rewrite orb_false_r. }
     destruct (r_is k "ENVID") eqn:E4.
-    { apply r_is_eq in E4. rewrite E4 in Hup |- *. destruct (cf_dsn cfg) eqn:Edsn; [|discriminate]. unfold r_envid.
+    { apply r_is_eq in E4. rewrite E4. destruct (cf_dsn cfg) eqn:Edsn; [|discriminate]. unfold r_envid.
       destruct (r_xtext val) as [[|x d]|] eqn:Ex; try discriminate.
       destruct (r_printable (x :: d)) eqn:Epr; [|discriminate]. cbn [negb].
       destruct (100 <? List.length val)%nat; [discriminate|].
@@ -1436,7 +1411,7 @@ Proof.
       change (is_printable_ascii (x :: d)) with (r_printable (x :: d)). rewrite Epr.
       cbn [mparam_apply mp_bin]. now rewrite orb_false_r. }
     destruct (r_is k "AUTH") eqn:E5; [|discriminate].
-    { apply r_is_eq in E5. rewrite E5 in Hup |- *. unfold r_auth.
+    { apply r_is_eq in E5. rewrite E5. unfold r_auth.
       destruct (r_xtext val) as [[|x d]|] eqn:Ex; try discriminate.
       destruct (bytes_eqb (x :: d) (bs "<>")) eqn:Enull.
       - intros H. inversion H; subst p. repeat split; try reflexivity; try assumption.
@@ -1450,18 +1425,14 @@ Proof.
         rewrite (r_xtext_decode _ _ Ex Hasc), Enull, Hpm.
         cbn [mparam_apply mp_bin]. now rewrite orb_false_r. }
   - destruct (r_is k "SMTPUTF8") eqn:E1.
-    { apply r_is_eq in E1. rewrite E1 in Hup |- *. destruct (cf_utf8 cfg) eqn:Ec; [|discriminate].
+    { apply r_is_eq in E1. rewrite E1. destruct (cf_utf8 cfg) eqn:Ec; [|discriminate].
       intros H. inversion H; subst p. repeat split; try reflexivity; try assumption.
       intros o bm. rewrite mail_param_SMTPUTF8, Ec. cbn [mparam_apply mp_bin]. now rewrite orb_false_r. }
     destruct (r_is k "REQUIRETLS") eqn:E2; [|discriminate].
-    { apply r_is_eq in E2. rewrite E2 in Hup |- *. destruct (cf_requiretls cfg) eqn:Ec; [|discriminate].
+    { apply r_is_eq in E2. rewrite E2. destruct (cf_requiretls cfg) eqn:Ec; [|discriminate].
       intros H. inversion H; subst p. repeat split; try reflexivity; try assumption.
       intros o bm. rewrite mail_param_REQUIRETLS, Ec. cbn [mparam_apply mp_bin]. now rewrite orb_false_r. }
 Qed.
-
-Definition flagv (tok : bytes) : bool :=
-  let '(k, v) := r_tok_split tok in
-  (r_is k "SMTPUTF8" || r_is k "REQUIRETLS") && match v with Some _ => true | None => false end.
 
 Lemma alnum_up c : Bool.eqb (r_alnum (r_up c) || Ascii.eqb (r_up c) "-") (r_alnum c || Ascii.eqb c "-") = true.
 Proof. revert c. bytecase. Qed.
@@ -1502,32 +1473,22 @@ Proof.
   rewrite digits_are_digits. intros ->. reflexivity.
 Qed.
 
-Lemma tok_split_app tok k v : r_tok_split tok = (k, v) -> exists r, tok = k ++ r.
-Proof.
-  unfold r_tok_split. pose proof (r_span_app (fun x => Ascii.eqb x "=") tok) as H.
-  destruct (r_span (fun x => Ascii.eqb x "=") tok) as [k' r]. intros E. inversion E; subst. eauto.
-Qed.
-
+(* a token parseArgs takes and the reference rejects is refused by the switch.
+   A keyword that is not an esmtp-keyword (non-ASCII octets included) is no
+   known key after ASCII upper-casing; SMTPUTF8 / REQUIRETLS with a value are
+   refused by their own cases. *)
 Lemma mail_param_invalid cfg tok :
-  r_mail_param cfg tok = CI -> fold_trap tok = false -> flagv tok = false -> tok_ok tok = true ->
-  to_upper (tok_k tok) = r_tok_key tok /\
+  r_mail_param cfg tok = CI -> tok_ok tok = true ->
   forall o bm, exists f, mail_param cfg (r_tok_key tok) (tok_val tok) o bm = inr f.
 Proof.
-  unfold r_mail_param, tok_ok, tok_k, r_tok_key, tok_val, flagv.
+  unfold r_mail_param, tok_ok, tok_k, r_tok_key, tok_val.
   destruct (r_tok_split tok) as [k v] eqn:Ets. cbn [fst snd].
-  intros H Hft Hfv Hok.
-  assert (Hup : to_upper k = r_upper k).
-  { destruct (tok_split_app _ _ _ Ets) as [r ->]. rewrite r_upper_map.
-    apply to_upper_no_trap. eapply fold_trap_app_l. exact Hft. }
-  split; [exact Hup|]. intros o bm.
+  intros H Hok o bm.
   destruct (r_keyword k) eqn:Ek; cbn [negb] in H.
   2:{ rewrite mail_param_unknown; [eauto|..]; apply nonkw; (exact Ek || reflexivity). }
   destruct v as [val|].
-  - apply andb_false_iff in Hfv as [Hfv|Hfv]; [|discriminate].
-    apply orb_false_iff in Hfv as [Hf1 Hf2]. apply negb_true_iff in Hok.
-    destruct (r_bad_value val) eqn:Eb.
-    { unfold r_bad_value in Eb. rewrite Hok, orb_false_r in Eb.
-      destruct val; [|discriminate]. apply mail_param_empty; assumption. }
+  - apply negb_true_iff in Hok. rewrite Hok in H.
+    destruct (bad_value_false _ Hok) as [_ Hvne].
     destruct (r_esmtp_value val) eqn:Ev; [|discriminate]. cbn [negb] in H.
     destruct (esmtp_value_xv _ Ev) as [Hxv Hne].
     assert (Hva : forallb is_ascii7 val = true) by (eapply forallb_impl; [apply xv_ascii|exact Hxv]).
@@ -1565,11 +1526,18 @@ Proof.
       pose proof (r_mailbox_whole_invalid _ Emb) as Hpm.
       destruct (parse_mailbox (x :: d)) as [[mb [|c r]]|] eqn:Ep; [|eauto|eauto].
       exfalso. exact (Hpm mb eq_refl). }
+    (* J10: a value on a parameter that has none *)
+    destruct (r_is k "SMTPUTF8") eqn:Hf1.
+    { rewrite (r_is_eq _ _ Hf1), mail_param_SMTPUTF8.
+      destruct (cf_utf8 cfg); cbn [negb]; [|eauto]. destruct val; [congruence|eauto]. }
+    destruct (r_is k "REQUIRETLS") eqn:Hf2.
+    { rewrite (r_is_eq _ _ Hf2), mail_param_REQUIRETLS.
+      destruct (cf_requiretls cfg); cbn [negb]; [|eauto]. destruct val; [congruence|eauto]. }
     rewrite mail_param_unknown; eauto.
   - destruct (r_is k "SMTPUTF8") eqn:E1.
-    { rewrite (r_is_eq _ _ E1), mail_param_SMTPUTF8. destruct (cf_utf8 cfg); [discriminate|eauto]. }
+    { rewrite (r_is_eq _ _ E1), mail_param_SMTPUTF8. destruct (cf_utf8 cfg); [discriminate|cbn [negb]; eauto]. }
     destruct (r_is k "REQUIRETLS") eqn:E2.
-    { rewrite (r_is_eq _ _ E2), mail_param_REQUIRETLS. destruct (cf_requiretls cfg); [discriminate|eauto]. }
+    { rewrite (r_is_eq _ _ E2), mail_param_REQUIRETLS. destruct (cf_requiretls cfg); [discriminate|cbn [negb]; eauto]. }
     apply mail_param_empty; assumption.
 Qed.
 
@@ -1702,20 +1670,18 @@ Lemma mail_items cfg toks ps :
     map fst items = map tok_pair toks /\ map snd items = ps /\
     Forall (item_ok (mail_step cfg) mstate_apply) items /\
     map mp_key ps = map r_tok_key toks /\
-    (forall tok, In tok toks -> to_upper (tok_k tok) = r_tok_key tok) /\
     forallb tok_ok toks = true.
 Proof.
   induction 1 as [|tok p toks ps Hp _ IH].
-  - exists []. repeat split; try constructor. intros tok [].
-  - destruct IH as [items [E1 [E2 [Hf [Ek [Hup Hok]]]]]].
-    destruct (mail_param_valid _ _ _ Hp) as [Hok1 [Hup1 [Hk1 Hstep]]].
+  - exists []. repeat split; try constructor.
+  - destruct IH as [items [E1 [E2 [Hf [Ek Hok]]]]].
+    destruct (mail_param_valid _ _ _ Hp) as [Hok1 [Hk1 Hstep]].
     exists ((tok_pair tok, p) :: items). cbn [map fst snd]. repeat split.
     + now rewrite E1.
     + now rewrite E2.
     + constructor; [|exact Hf]. intros [o bm]. unfold item_ok, mail_step, mstate_apply, tok_pair.
       cbn [fst snd]. apply Hstep.
     + now rewrite Hk1, Ek.
-    + intros t [<-|Ht]; [exact Hup1|now apply Hup].
     + cbn [forallb]. now rewrite Hok1, Hok.
 Qed.
 
@@ -1726,7 +1692,7 @@ Lemma mail_args_valid cfg toks ps :
   exists bm, mail_params cfg (sort_kv (map tok_pair toks)) mo_zero false
              = inl (fold_left mparam_apply ps mo_zero, bm).
 Proof.
-  intros H Hnd. destruct (mail_items _ _ _ H) as [items [E1 [E2 [Hf [Ek [Hup Hok]]]]]].
+  intros H Hnd. destruct (mail_items _ _ _ H) as [items [E1 [E2 [Hf [Ek Hok]]]]].
   split.
   - rewrite (parse_args_go_tokens toks []); try assumption; [reflexivity|]. intros; reflexivity.
   - rewrite <- E1.
@@ -1783,55 +1749,6 @@ Qed.
 
 (* --- refusals --- *)
 
-Lemma parse_path_suffix r mb rest : parse_path r = Some (mb, rest) -> suffix rest r.
-Proof.
-  unfold parse_path.
-  set (bs1 := match r with
-              | c :: t => if Ascii.eqb c "<" then (true, t) else (false, r)
-              | [] => (false, r) end).
-  assert (Hbs : suffix (snd bs1) r).
-  { subst bs1. destruct r as [|c t]; [apply suffix_refl|].
-    destruct (Ascii.eqb c "<"); cbn; [apply suffix_cons|]; apply suffix_refl. }
-  destruct bs1 as [bracket s1]. cbn [snd] in Hbs.
-  set (s2o := match s1 with
-              | c :: t => if Ascii.eqb c "@" then match cut_byte ":" t with Some (_, r0) => Some r0 | None => None end else Some s1
-              | [] => Some s1 end).
-  assert (Hs2 : forall s2, s2o = Some s2 -> suffix s2 s1).
-  { subst s2o. intros s2. destruct s1 as [|c t]; [intros H; inversion H; apply suffix_refl|].
-    destruct (Ascii.eqb c "@"); [|intros H; inversion H; apply suffix_refl].
-    destruct (cut_byte ":" t) as [[a r0]|] eqn:Ec; [|discriminate].
-    intros H. inversion H; subst. apply cut_byte_split in Ec. subst t.
-    apply suffix_cons. exists (a ++ [":"]). now rewrite <- app_assoc. }
-  destruct s2o as [s2|]; [|discriminate]. specialize (Hs2 s2 eq_refl).
-  destruct (parse_mailbox s2) as [[mbox r']|] eqn:Em; [|discriminate].
-  destruct (parse_mailbox_suffix _ _ _ Em) as [Hr' _].
-  assert (Hr : suffix r' r) by (eapply suffix_trans; [exact Hr'|eapply suffix_trans; eassumption]).
-  destruct bracket.
-  - destruct r' as [|c r'']; [discriminate|]. destruct (Ascii.eqb c ">"); [|discriminate].
-    intros H. inversion H; subst. eapply suffix_trans; [apply suffix_cons, suffix_refl|exact Hr].
-  - intros H. inversion H; subst. exact Hr.
-Qed.
-
-Lemma skipn_suffix {A} n (s : list A) : exists pre, s = pre ++ skipn n s.
-Proof. exists (firstn n s). symmetry. apply firstn_skipn. Qed.
-
-Lemma parse_reverse_path_suffix r mb rest : parse_reverse_path r = Some (mb, rest) -> suffix rest r.
-Proof.
-  unfold parse_reverse_path. destruct (has_prefix r (bs "<>")).
-  - intros H. injection H as _ <-. apply (skipn_suffix 2 r).
-  - apply parse_path_suffix.
-Qed.
-
-Lemma split_byte_app c x y : split_byte c (x ++ c :: y) = split_byte c x ++ split_byte c y.
-Proof.
-  induction x as [|a x IH].
-  - cbn [app]. rewrite split_byte_cons. pose proof (split_byte_nonnil c y).
-    destruct (split_byte c y); [contradiction|]. now rewrite Ascii.eqb_refl.
-  - cbn [app]. rewrite !split_byte_cons, IH. pose proof (split_byte_nonnil c x).
-    destruct (split_byte c x) as [|h r]; [contradiction|]. cbn [app].
-    destruct (Ascii.eqb c a); reflexivity.
-Qed.
-
 Lemma split_byte_first c : forall s h r, split_byte c s = h :: r -> exists w, s = h ++ w.
 Proof.
   induction s as [|b s IH]; intros h r E.
@@ -1855,34 +1772,6 @@ Proof.
     + destruct Hin as [<-|Hin].
       * destruct (split_byte_first _ _ _ _ E) as [w' ->]. exists [], w'. reflexivity.
       * destruct (IH tok (or_intror Hin)) as [u [w ->]]. exists (a :: u), w. reflexivity.
-Qed.
-
-Lemma fold_trap_sub u tok w : fold_trap (u ++ tok ++ w) = false -> fold_trap tok = false.
-Proof. intros H. apply fold_trap_app_r in H. now apply fold_trap_app_l in H. Qed.
-
-(* facts about the tokens of a line whose text after the path is [rest] *)
-Lemma tokens_of_arg arg rest toks tok :
-  suffix rest arg -> r_tokens rest = CV toks -> In tok toks ->
-  (fold_trap arg = false -> fold_trap tok = false) /\
-  (flag_with_value arg = false -> flagv tok = false).
-Proof.
-  intros [pre ->] Ht Hin. unfold r_tokens in Ht.
-  destruct rest as [|c ps]; [inversion Ht; subst; contradiction|].
-  destruct (Ascii.eqb c " ") eqn:Ec; [|discriminate]. apply Ascii.eqb_eq in Ec. subst c. cbn [negb] in Ht.
-  destruct (r_other_ws ps); [discriminate|].
-  destruct (forallb r_nonempty (split_byte " " ps)); [|discriminate]. inversion Ht; subst toks.
-  split.
-  - intros Hft. destruct (split_byte_sub _ _ _ Hin) as [u [w E]]. rewrite E in Hft.
-    apply fold_trap_app_r in Hft. apply (fold_trap_cons " ") in Hft. eapply fold_trap_sub; exact Hft.
-  - unfold flag_with_value. rewrite split_byte_app, existsb_app. intros Hfv.
-    apply orb_false_iff in Hfv as [_ Hfv].
-    destruct (existsb_exists flagv (split_byte " " ps)) as [_ Hex].
-    destruct (flagv tok) eqn:E; [|reflexivity].
-    change (existsb (fun tok0 => let '(k, v) := r_tok_split tok0 in
-                                 (r_is k "SMTPUTF8" || r_is k "REQUIRETLS")
-                                 && match v with Some _ => true | None => false end) (split_byte " " ps))
-      with (existsb flagv (split_byte " " ps)) in Hfv.
-    rewrite Hex in Hfv; [discriminate|]. exists tok. split; assumption.
 Qed.
 
 (* the refusal codes *)
@@ -1919,13 +1808,6 @@ Proof.
     destruct (ec_eqb _ no_ec); cbn; eauto.
 Qed.
 
-Lemma tok_key_plain tok : fold_trap tok = false -> to_upper (tok_k tok) = r_tok_key tok.
-Proof.
-  intros H. unfold tok_k, r_tok_key. destruct (r_tok_split tok) as [k v] eqn:E. cbn [fst].
-  destruct (tok_split_app _ _ _ E) as [r ->]. rewrite r_upper_map.
-  apply to_upper_no_trap. eapply fold_trap_app_l. exact H.
-Qed.
-
 Lemma forallb_false_ex {A} (f : A -> bool) l : forallb f l = false -> exists x, In x l /\ f x = false.
 Proof.
   induction l as [|x l IH]; [discriminate|]. cbn. intros H.
@@ -1933,15 +1815,12 @@ Proof.
   destruct (IH H) as [y [Hy Hf]]. exists y. split; [now right|exact Hf].
 Qed.
 
-Lemma strip_suffix p arg a : r_strip_prefix p arg = Some a -> suffix a arg.
-Proof. intros H. rewrite (strip_prefix_skipn _ _ _ H). apply skipn_suffix. Qed.
-
 Theorem invalid_refused_mail cfg c arg :
   c_helo c <> [] -> c_bdat c = None ->
-  classify_mail cfg arg = Invalid -> fold_trap arg = false -> flag_with_value arg = false ->
+  classify_mail cfg arg = Invalid ->
   exists code ec msg, snd (handle_mail cfg c arg) = [reply code ec msg] /\ refusal_code code.
 Proof.
-  intros Hh Hb Hc Hft Hfv. unfold classify_mail in Hc.
+  intros Hh Hb Hc. unfold classify_mail in Hc.
   unfold handle_mail. destruct (c_helo c) as [|h0 h]; [contradiction|]. rewrite Hb.
   destruct from_prefix_ok as [P1 P2]. rewrite (cut_prefix_fold_ref "FROM:" arg P1 P2).
   assert (Hsyn : exists code ec msg, [syntax_mail] = [reply code ec msg] /\ refusal_code code).
@@ -1952,21 +1831,16 @@ Proof.
   destruct Ha as [Ep|[mb [rest [toks [tok [Ep [Et [End [Hin Hci]]]]]]]]].
   { pose proof (r_path_invalid true _ Ep) as Hpp. cbn in Hpp. rewrite Hpp. exact Hsyn. }
   pose proof (r_path_valid true _ _ _ Ep) as Hpp. cbn in Hpp. rewrite Hpp.
-  assert (Hsuf : suffix rest arg).
-  { eapply suffix_trans; [eapply parse_reverse_path_suffix; exact Hpp|eapply strip_suffix; exact Esp]. }
   unfold parse_args. rewrite (fields_tokens _ _ Et).
   destruct (forallb tok_ok toks) eqn:Eok.
   2:{ destruct (forallb_false_ex _ _ Eok) as [t [Ht Hbad]].
       rewrite (parse_args_go_bad _ _ _ Ht Hbad). do 3 eexists. split; [reflexivity|].
       unfold refusal_code. cbn. tauto. }
   rewrite (parse_args_go_tokens toks []); try assumption.
-  2:{ intros t Ht. apply tok_key_plain.
-      destruct (tokens_of_arg _ _ _ _ Hsuf Et Ht) as [H1 _]. now apply H1. }
   2:{ intros; reflexivity. }
   cbn [app].
-  destruct (tokens_of_arg _ _ _ _ Hsuf Et Hin) as [H1 H2].
   assert (Hok : tok_ok tok = true) by (rewrite forallb_forall in Eok; now apply Eok).
-  destruct (mail_param_invalid _ _ Hci (H1 Hft) (H2 Hfv) Hok) as [_ Hfail].
+  pose proof (mail_param_invalid _ _ Hci Hok) as Hfail.
   assert (Hin' : In (tok_pair tok) (sort_kv (map tok_pair toks))).
   { eapply Permutation_in; [apply Permutation_sym, sort_kv_perm|]. now apply in_map. }
   destruct (loop_fails (mail_step cfg) _ (mo_zero, false) _ _ Hin') as [f Hl].
@@ -2818,21 +2692,20 @@ Qed.
 
 Lemma rcpt_param_valid cfg tok p :
   r_rcpt_param cfg tok = CV p ->
-  tok_ok tok = true /\ to_upper (tok_k tok) = r_tok_key tok /\ rp_key p = r_tok_key tok /\
+  tok_ok tok = true /\ rp_key p = r_tok_key tok /\
   forall o, rcpt_param cfg (r_tok_key tok) (tok_val tok) o = inl (rparam_apply o p).
 Proof.
   unfold r_rcpt_param, tok_ok, tok_k, r_tok_key, tok_val.
   destruct (r_tok_split tok) as [k v]. cbn [fst snd].
   destruct (r_keyword k) eqn:Ek; [|discriminate]. cbn [negb].
-  assert (Hup : to_upper k = r_upper k) by (apply ascii_upper, keyword_ascii, Ek).
   destruct v as [val|]; [|discriminate].
   destruct (r_bad_value val) eqn:Eb; [discriminate|].
-  destruct (bad_value_false _ Eb) as [Heq Hne]. rewrite Heq. cbn [negb].
+  destruct (bad_value_false _ Eb) as [Heq Hne]. cbn [negb].
   assert (Horcpt : cf_dsn cfg = true -> forallb xw_char val = true -> r_is k "ORCPT" = true ->
             r_orcpt val = CV p ->
-            true = true /\ to_upper k = r_upper k /\ rp_key p = r_upper k /\
+            true = true /\ rp_key p = r_upper k /\
             forall o, rcpt_param cfg (r_upper k) val o = inl (rparam_apply o p)).
-  { intros Edsn Hxw E Hr. apply r_is_eq in E. rewrite E in Hup |- *.
+  { intros Edsn Hxw E Hr. apply r_is_eq in E. rewrite E.
     pose proof (orcpt_dec val Hxw) as Hd. rewrite Hr in Hd. destruct p as [|ty a|]; try contradiction.
     destruct Hd as [Hd Ha]. repeat split; try reflexivity; try assumption.
     intros o. rewrite rcpt_param_ORCPT, Edsn, Hd. cbn [negb]. destruct a; [contradiction|reflexivity]. }
@@ -2843,7 +2716,7 @@ Proof.
   destruct (esmtp_value_xv _ Ev) as [Hxv _].
   assert (Hva : forallb is_ascii7 val = true) by (eapply forallb_impl; [apply xv_ascii|exact Hxv]).
   destruct (r_is k "NOTIFY") eqn:E1.
-  { apply r_is_eq in E1. rewrite E1 in Hup |- *. destruct (cf_dsn cfg) eqn:Edsn; [|discriminate].
+  { apply r_is_eq in E1. rewrite E1. destruct (cf_dsn cfg) eqn:Edsn; [|discriminate].
     intros Hr. destruct (notify_equiv val Hva) as [Hmap Hn]. rewrite Hr in Hn.
     destruct p as [l| |]; try contradiction. destruct Hn as [-> Hok].
     repeat split; try reflexivity; try assumption.
@@ -2852,7 +2725,7 @@ Proof.
   { destruct (cf_dsn cfg) eqn:Edsn; [|discriminate]. intros Hr.
     apply Horcpt; try assumption; try reflexivity. eapply forallb_impl; [apply xv_xw|exact Hxv]. }
   destruct (r_is k "RRVS") eqn:E3; [|discriminate].
-  { apply r_is_eq in E3. rewrite E3 in Hup |- *. destruct (cf_rrvs cfg) eqn:Er; [|discriminate].
+  { apply r_is_eq in E3. rewrite E3. destruct (cf_rrvs cfg) eqn:Er; [|discriminate].
     intros Hr. destruct p as [| |t].
     - unfold r_rrvs in Hr. destruct val as [|y0 [|y1 [|y2 [|y3 [|s1 v']]]]]; try discriminate.
       destruct (negb _); [discriminate|]. destruct (r_span _ _) as [ts r]. destruct (r_datetime ts); [|discriminate].
@@ -2865,18 +2738,17 @@ Proof.
 Qed.
 
 Lemma rcpt_param_invalid cfg tok :
-  r_rcpt_param cfg tok = CI -> fold_trap tok = false -> tok_ok tok = true ->
+  r_rcpt_param cfg tok = CI -> tok_ok tok = true ->
   forall o, exists f, rcpt_param cfg (r_tok_key tok) (tok_val tok) o = inr f.
 Proof.
   unfold r_rcpt_param, tok_ok, r_tok_key, tok_val.
   destruct (r_tok_split tok) as [k v] eqn:Ets. cbn [fst snd].
-  intros H Hft Hok o.
+  intros H Hok o.
   destruct (r_keyword k) eqn:Ek; cbn [negb] in H.
   2:{ rewrite rcpt_param_unknown; [eauto|..]; apply nonkw; (exact Ek || reflexivity). }
   destruct v as [val|]; [|apply rcpt_param_empty].
-  apply negb_true_iff in Hok.
-  destruct (r_bad_value val) eqn:Eb.
-  { unfold r_bad_value in Eb. rewrite Hok, orb_false_r in Eb. destruct val; [|discriminate]. apply rcpt_param_empty. }
+  apply negb_true_iff in Hok. rewrite Hok in H.
+  destruct (bad_value_false _ Hok) as [Heq _].
   assert (Horcpt : forallb xw_char val = true -> r_is k "ORCPT" = true -> r_orcpt val = CI ->
                    exists f, rcpt_param cfg (r_upper k) val o = inr f).
   { intros Hxw E Hr. rewrite (r_is_eq _ _ E), rcpt_param_ORCPT. destruct (cf_dsn cfg); cbn [negb]; [|eauto].
@@ -2915,19 +2787,17 @@ Lemma rcpt_items cfg toks ps :
     map fst items = map tok_pair toks /\ map snd items = ps /\
     Forall (item_ok (rcpt_param cfg) rparam_apply) items /\
     map rp_key ps = map r_tok_key toks /\
-    (forall tok, In tok toks -> to_upper (tok_k tok) = r_tok_key tok) /\
     forallb tok_ok toks = true.
 Proof.
   induction 1 as [|tok p toks ps Hp _ IH].
-  - exists []. repeat split; try constructor. intros tok [].
-  - destruct IH as [items [E1 [E2 [Hf [Ek [Hup Hok]]]]]].
-    destruct (rcpt_param_valid _ _ _ Hp) as [Hok1 [Hup1 [Hk1 Hstep]]].
+  - exists []. repeat split; try constructor.
+  - destruct IH as [items [E1 [E2 [Hf [Ek Hok]]]]].
+    destruct (rcpt_param_valid _ _ _ Hp) as [Hok1 [Hk1 Hstep]].
     exists ((tok_pair tok, p) :: items). cbn [map fst snd]. repeat split.
     + now rewrite E1.
     + now rewrite E2.
     + constructor; [|exact Hf]. intros o. unfold item_ok, tok_pair. cbn [fst snd]. apply Hstep.
     + now rewrite Hk1, Ek.
-    + intros t [<-|Ht]; [exact Hup1|now apply Hup].
     + cbn [forallb]. now rewrite Hok1, Hok.
 Qed.
 
@@ -2937,7 +2807,7 @@ Lemma rcpt_args_valid cfg toks ps :
   parse_args_go toks [] = Some (map tok_pair toks) /\
   rcpt_params cfg (sort_kv (map tok_pair toks)) ro_zero = inl (fold_left rparam_apply ps ro_zero).
 Proof.
-  intros H Hnd. destruct (rcpt_items _ _ _ H) as [items [E1 [E2 [Hf [Ek [Hup Hok]]]]]].
+  intros H Hnd. destruct (rcpt_items _ _ _ H) as [items [E1 [E2 [Hf [Ek Hok]]]]].
   split.
   - rewrite (parse_args_go_tokens toks []); try assumption; [reflexivity|]. intros; reflexivity.
   - rewrite <- E1.
@@ -3001,10 +2871,10 @@ Qed.
 
 Theorem invalid_refused_rcpt cfg c arg :
   c_from c = true -> c_bdat c = None -> rcpt_limit_free cfg c ->
-  classify_rcpt cfg arg = Invalid -> fold_trap arg = false ->
+  classify_rcpt cfg arg = Invalid ->
   exists code ec msg, snd (handle_rcpt cfg c arg) = [reply code ec msg] /\ refusal_code code.
 Proof.
-  intros Hfr Hb Hlim Hc Hft. unfold classify_rcpt in Hc.
+  intros Hfr Hb Hlim Hc. unfold classify_rcpt in Hc.
   unfold handle_rcpt. rewrite Hfr, Hb. cbn [negb].
   destruct to_prefix_ok as [P1 P2]. rewrite (cut_prefix_fold_ref "TO:" arg P1 P2).
   assert (Hsyn : exists code ec msg, [syntax_rcpt] = [reply code ec msg] /\ refusal_code code).
@@ -3016,21 +2886,16 @@ Proof.
   { pose proof (r_path_invalid false _ Ep) as Hpp. cbn in Hpp. rewrite Hpp. exact Hsyn. }
   pose proof (r_path_valid false _ _ _ Ep) as Hpp. cbn in Hpp. rewrite Hpp.
   unfold rcpt_limit_free in Hlim. rewrite Hlim.
-  assert (Hsuf : suffix rest arg).
-  { eapply suffix_trans; [eapply parse_path_suffix; exact Hpp|eapply strip_suffix; exact Esp]. }
   unfold parse_args. rewrite (fields_tokens _ _ Et).
   destruct (forallb tok_ok toks) eqn:Eok.
   2:{ destruct (forallb_false_ex _ _ Eok) as [t [Ht Hbad]].
       rewrite (parse_args_go_bad _ _ _ Ht Hbad). do 3 eexists. split; [reflexivity|].
       unfold refusal_code. cbn. tauto. }
   rewrite (parse_args_go_tokens toks []); try assumption.
-  2:{ intros t Ht. apply tok_key_plain.
-      destruct (tokens_of_arg _ _ _ _ Hsuf Et Ht) as [H1 _]. now apply H1. }
   2:{ intros; reflexivity. }
   cbn [app].
-  destruct (tokens_of_arg _ _ _ _ Hsuf Et Hin) as [H1 _].
   assert (Hok : tok_ok tok = true) by (rewrite forallb_forall in Eok; now apply Eok).
-  pose proof (rcpt_param_invalid _ _ Hci (H1 Hft) Hok) as Hfail.
+  pose proof (rcpt_param_invalid _ _ Hci Hok) as Hfail.
   assert (Hin' : In (tok_pair tok) (sort_kv (map tok_pair toks))).
   { eapply Permutation_in; [apply Permutation_sym, sort_kv_perm|]. now apply in_map. }
   destruct (loop_fails (rcpt_param cfg) _ ro_zero _ _ Hin' Hfail) as [f Hl].
@@ -3040,7 +2905,7 @@ Proof.
 Qed.
 
 (* ------------------------------------------------------------------ *)
-(* N. statements for props/C11.v, refutations, non-vacuity             *)
+(* N. statements for props/C11.v, the former findings, non-vacuity     *)
 (* ------------------------------------------------------------------ *)
 
 (* a refused command: one reply, whose code is 5xx, and no callback *)
@@ -3056,25 +2921,25 @@ Qed.
 
 Theorem invalid_refused_mail_5xx cfg c arg :
   c_helo c <> [] -> c_bdat c = None ->
-  classify_mail cfg arg = Invalid -> fold_trap arg = false -> flag_with_value arg = false ->
+  classify_mail cfg arg = Invalid ->
   refused (snd (handle_mail cfg c arg)).
 Proof.
-  intros H1 H2 H3 H4 H5.
-  destruct (invalid_refused_mail cfg c arg H1 H2 H3 H4 H5) as [code [ec [msg [E Hc]]]].
+  intros H1 H2 H3.
+  destruct (invalid_refused_mail cfg c arg H1 H2 H3) as [code [ec [msg [E Hc]]]].
   destruct (reply_5xx code ec msg Hc) as [rest Hr]. exists code, ec, msg, rest. auto.
 Qed.
 
 Theorem invalid_refused_rcpt_5xx cfg c arg :
   c_from c = true -> c_bdat c = None -> rcpt_limit_free cfg c ->
-  classify_rcpt cfg arg = Invalid -> fold_trap arg = false ->
+  classify_rcpt cfg arg = Invalid ->
   refused (snd (handle_rcpt cfg c arg)).
 Proof.
-  intros H1 H2 H3 H4 H5.
-  destruct (invalid_refused_rcpt cfg c arg H1 H2 H3 H4 H5) as [code [ec [msg [E Hc]]]].
+  intros H1 H2 H3 H4.
+  destruct (invalid_refused_rcpt cfg c arg H1 H2 H3 H4) as [code [ec [msg [E Hc]]]].
   destruct (reply_5xx code ec msg Hc) as [rest Hr]. exists code, ec, msg, rest. auto.
 Qed.
 
-(* --- the two accepted deviations: the unrestricted statement is false --- *)
+(* --- the two former findings: the witnesses are refused now --- *)
 
 Definition cfg_all : config :=
   mkCfg false false (bs "d") 0 0 2000 false true true true true true false None false.
@@ -3088,29 +2953,35 @@ Definition conn_ready (from : bool) : conn :=
 Definition long_s : bytes := [n_byte 197; n_byte 191].     (* U+017F *)
 Definition dotless_i : bytes := [n_byte 196; n_byte 177].  (* U+0131 *)
 
-(* MAIL FROM:<a@b> ſIZE=1 is accepted as SIZE=1 *)
-Theorem refuted_unicode_fold_mail :
+(* MAIL FROM:<a@b> U+017F IZE=1 (was accepted as SIZE=1): an unknown parameter *)
+Example unicode_fold_mail_refused :
   let arg := bs "FROM:<a@b> " ++ long_s ++ bs "IZE=1" in
-  classify_mail cfg_all arg = Invalid /\
+  fold_trap arg = true /\ classify_mail cfg_all arg = Invalid /\
   snd (handle_mail cfg_all (conn_ready false) arg)
-  = mail_ok_events (bs "a@b") (mkMO [] 1 false false [] [] None) BNil.
-Proof. vm_compute. split; reflexivity. Qed.
+  = [reply 500 (5, 5, 4)%Z (bs "Unknown MAIL FROM argument")].
+Proof. vm_compute. repeat split; reflexivity. Qed.
 
-(* RCPT TO:<a@b> NOTıFY=NEVER is accepted as NOTIFY=NEVER *)
-Theorem refuted_unicode_fold_rcpt :
+(* RCPT TO:<a@b> NOT U+0131 FY=NEVER (was accepted as NOTIFY=NEVER) *)
+Example unicode_fold_rcpt_refused :
   let arg := bs "TO:<a@b> NOT" ++ dotless_i ++ bs "FY=NEVER" in
-  classify_rcpt cfg_all arg = Invalid /\
+  fold_trap arg = true /\ classify_rcpt cfg_all arg = Invalid /\
   snd (handle_rcpt cfg_all (conn_ready true) arg)
-  = rcpt_ok_events (bs "a@b") (mkRO [bs "NEVER"] [] [] None) BNil.
-Proof. vm_compute. split; reflexivity. Qed.
+  = [reply 500 (5, 5, 4)%Z (bs "Unknown RCPT TO argument")].
+Proof. vm_compute. repeat split; reflexivity. Qed.
 
-(* MAIL FROM:<a@b> SMTPUTF8=1 is accepted as SMTPUTF8 *)
-Theorem refuted_flag_value_mail :
-  let arg := bs "FROM:<a@b> SMTPUTF8=1" in
-  classify_mail cfg_all arg = Invalid /\
-  snd (handle_mail cfg_all (conn_ready false) arg)
-  = mail_ok_events (bs "a@b") (mkMO [] 0 false true [] [] None) BNil.
-Proof. vm_compute. split; reflexivity. Qed.
+(* MAIL FROM:<a@b> SMTPUTF8=1 / REQUIRETLS=yes (were accepted as the bare
+   flags) and SMTPUTF8= (parseArgs could not tell it from SMTPUTF8) *)
+Example flag_value_mail_refused :
+  let a1 := bs "FROM:<a@b> SMTPUTF8=1" in
+  let a2 := bs "FROM:<a@b> REQUIRETLS=yes" in
+  let a3 := bs "FROM:<a@b> SMTPUTF8=" in
+  flag_with_value a1 = true /\ flag_with_value a2 = true /\ flag_with_value a3 = true /\
+  classify_mail cfg_all a1 = Invalid /\ classify_mail cfg_all a2 = Invalid /\
+  classify_mail cfg_all a3 = Invalid /\
+  snd (handle_mail cfg_all (conn_ready false) a1) = [reply 501 (5, 5, 4)%Z (bs "SMTPUTF8 takes no value")] /\
+  snd (handle_mail cfg_all (conn_ready false) a2) = [reply 501 (5, 5, 4)%Z (bs "REQUIRETLS takes no value")] /\
+  snd (handle_mail cfg_all (conn_ready false) a3) = [reply 501 (5, 5, 4)%Z (bs "Unable to parse MAIL ESMTP parameters")].
+Proof. vm_compute. repeat split; reflexivity. Qed.
 
 (* --- non-vacuity: one Valid line per parameter, Invalid lines, admissible states --- *)
 
@@ -3186,8 +3057,7 @@ Example invalid_examples :
   classify_mail cfg_none (bs "FROM:<a@b> SMTPUTF8") = Invalid /\  (* disabled extension *)
   classify_mail cfg_all (bs "FROM:<a@b> SIZE=1x") = Invalid /\    (* value outside its grammar *)
   classify_rcpt cfg_all (bs "TO:<a@b> NOTIFY=SUCCESS,SUCCESS") = Invalid /\
-  classify_rcpt cfg_all (bs "TO:<a@b> NOTIFY=NEVER,DELAY") = Invalid /\
-  fold_trap (bs "FROM:<a@b> FOO=1") = false /\ flag_with_value (bs "FROM:<a@b> FOO=1") = false.
+  classify_rcpt cfg_all (bs "TO:<a@b> NOTIFY=NEVER,DELAY") = Invalid.
 Proof. vm_compute. repeat split; reflexivity. Qed.
 
 Example unspecified_examples :
